@@ -29,6 +29,39 @@ type c11Universe struct {
 	Dynamic  []int // services whose extra route /q can be added and removed
 	Patterns []string
 	Depth    int
+	Name     string
+	// NoPath: services declared without any Path() call (their root path becomes "/" when the
+	// container adds them); DynEntry: sub-path of the dynamic route ("/q" unless set; may be "")
+	NoPath   []int
+	DynEntry *string
+}
+
+func (u c11Universe) dyn() string {
+	if u.DynEntry != nil {
+		return *u.DynEntry
+	}
+	return "/q"
+}
+
+func (u c11Universe) noPath(i int) bool {
+	for _, j := range u.NoPath {
+		if i == j {
+			return true
+		}
+	}
+	return false
+}
+
+// c11Universes: the main universe and a small second one whose first service never had Path()
+// called and whose dynamic route sits on the empty sub-path (a route built before the service is
+// added and one built afterwards must be the same route).
+func c11Universes(tier string) []c11Universe {
+	empty := ""
+	d := 4
+	if tier == "thorough" {
+		d = 6
+	}
+	return []c11Universe{c11U(tier), {Name: "nopath", Roots: []string{"", "/a"}, NoPath: []int{0}, Dynamic: []int{0}, DynEntry: &empty, Patterns: []string{"/static/", "/health"}, Depth: d}}
 }
 
 func c11U(tier string) c11Universe {
@@ -141,7 +174,10 @@ func newC11World(u c11Universe, routes map[int][]string) *c11World {
 	w := &c11World{u: u, c: restful.NewContainer()}
 	w.c.Filter(w.c.OPTIONSFilter) // OPTIONS probes: the computed method lists must follow every change
 	for i, root := range u.Roots {
-		ws := new(restful.WebService).Path(root)
+		ws := new(restful.WebService)
+		if !u.noPath(i) {
+			ws.Path(root)
+		}
 		ws.SetDynamicRoutes(true)
 		rts := []string{"/p"}
 		if routes != nil {
@@ -168,14 +204,14 @@ func (w *c11World) apply(o c11Op) (panicked string) {
 	case "remove":
 		w.c.Remove(w.ws[o.I])
 	case "route":
-		w.ws[o.I].Route(c11RouteBuilder(w.ws[o.I], o.I, "/q"))
+		w.ws[o.I].Route(c11RouteBuilder(w.ws[o.I], o.I, w.u.dyn()))
 	case "route-xml":
-		w.ws[o.I].Route(c11RouteBuilder(w.ws[o.I], o.I, "/q#xml"))
+		w.ws[o.I].Route(c11RouteBuilder(w.ws[o.I], o.I, w.u.dyn()+"#xml"))
 	case "route-json":
-		w.ws[o.I].Route(c11RouteBuilder(w.ws[o.I], o.I, "/q#json"))
+		w.ws[o.I].Route(c11RouteBuilder(w.ws[o.I], o.I, w.u.dyn()+"#json"))
 	case "unroute":
 		root := strings.TrimRight(w.u.Roots[o.I], "/")
-		w.ws[o.I].RemoveRoute(root+"/q", "GET")
+		w.ws[o.I].RemoveRoute(root+"/"+strings.TrimLeft(w.u.dyn(), "/"), "GET")
 	case "handle", "handle-again":
 		w.c.Handle(w.u.Patterns[o.I], c11Handler(w.u.Patterns[o.I]))
 	}
@@ -233,7 +269,7 @@ func (s c11State) next(u c11Universe, o c11Op) (c11State, bool) {
 			n.HandledBeforeRemove[hnd] = true
 		}
 	case "route", "route-xml", "route-json":
-		entry := map[string]string{"route": "/q", "route-xml": "/q#xml", "route-json": "/q#json"}[o.Kind]
+		entry := u.dyn() + map[string]string{"route": "", "route-xml": "#xml", "route-json": "#json"}[o.Kind]
 		dyn := false
 		for _, d := range u.Dynamic {
 			if d == o.I {
@@ -249,7 +285,7 @@ func (s c11State) next(u c11Universe, o c11Op) (c11State, bool) {
 		var keep []string
 		found := false
 		for _, r := range n.Routes[o.I] {
-			if r == "/q" || strings.HasPrefix(r, "/q#") {
+			if r == u.dyn() || strings.HasPrefix(r, u.dyn()+"#") {
 				found = true
 				continue
 			}
@@ -368,6 +404,11 @@ func c11Probes(u c11Universe) []c11Probe {
 	add(h.Req{Method: "GET", Segs: []string{"health"}}, 1)
 	add(h.Req{Method: "GET", Segs: []string{"zzz"}}, -1)
 	add(h.Req{Method: "GET"}, -1)
+	add(h.Req{Method: "POST"}, -1)
+	add(h.Req{Method: "OPTIONS"}, -1)
+	for _, acc := range []string{"application/xml", "application/json"} {
+		add(h.Req{Method: "GET", Hdr: [][2]string{{"Accept", acc}}}, -1)
+	}
 	return out
 }
 
@@ -394,6 +435,7 @@ func c11Answer(w *c11World, p c11Probe) string {
 type c11Case struct {
 	History []c11Op   `json:"history"`
 	Tier    string    `json:"tier"`
+	U       string    `json:"universe,omitempty"`
 	Probe   *c11Probe `json:"probe,omitempty"`
 	Got     string    `json:"history_built"`
 	Want    string    `json:"fresh_built"`
@@ -483,6 +525,11 @@ func replayC11(detail json.RawMessage) error {
 		tier = "quick"
 	}
 	u := c11U(tier)
+	for _, cand := range c11Universes(tier) {
+		if cand.Name == c.U {
+			u = cand
+		}
+	}
 	s := c11Initial(u)
 	for _, o := range c.History {
 		n, ok := s.next(u, o)
@@ -503,7 +550,37 @@ func replayC11(detail json.RawMessage) error {
 
 func checkC11(run *h.Run) {
 	rs.Quiet(false)
-	u := c11U(run.Tier)
+	var tStates, tTrans, tEvals, tDepth, tSigs int
+	var main c11Universe
+	var mainProbes int
+	for ui, u := range c11Universes(run.Tier) {
+		st, tr, md, np, ns := c11Search(run, u)
+		tStates, tTrans, tEvals, tSigs = tStates+st, tTrans+tr, tEvals+tr*np*2, tSigs+ns
+		if md > tDepth {
+			tDepth = md
+		}
+		if ui == 0 {
+			main, mainProbes = u, np
+		}
+	}
+	u, probes := main, make([]struct{}, mainProbes)
+	run.Cov["states"] = tStates
+	run.Cov["transitions"] = tTrans
+	run.Cov["traces_validated_against_impl"] = tTrans
+	run.Cov["evaluations"] = tEvals
+	run.Cov["distinct_nontrivial"] = tStates
+	run.Cov["max_depth"] = tDepth
+	run.Cov["probes_per_state"] = len(probes)
+	run.Cov["distinct_probe_signatures"] = tSigs
+	run.Cov["exhaustive"] = true
+	run.Cov["roots"] = u.Roots
+	run.Cov["rule"] = fmt.Sprintf("E2: breadth-first search over operation histories up to depth %d; alphabet Add/Remove of %d services whose root paths collide in every way the mux registration can, Route/RemoveRoute of a dynamic route on %d of them, Handle of %d plain patterns, and one further Handle of an already registered pattern (rejected by net/http with a panic which the caller recovers: it registers nothing) (Add only of unregistered roots - the property's precondition). Every history is replayed three times - with the probe set served between all operations, between none, and between all but the last two. A successor is computed by replaying the history on a fresh real container; the probe set is also served between the operations of a history (so that nothing memoised while serving survives a change); in every reached state all %d probes (each service's routes incl. removed ones, root URLs, handler patterns, unknown URL; GET/POST; ServeHTTP and Dispatch) must be answered exactly as by a container built directly from the state's abstract content. States are merged on abstract content (plus the observed probe signature when a state deviates from its fresh twin). Every state is non-trivial. A second, small universe is searched the same way: a service declared without any Path() call next to /a, the dynamic route on the empty sub-path (declared before the service is added in the fresh container, afterwards in most histories).", u.Depth, len(u.Roots), len(u.Dynamic), len(u.Patterns), len(probes))
+	run.Assume = []string{"merged states have the same futures w.r.t. the probe set and alphabet because the oracle has just shown them observationally equal to the fresh-built container"}
+}
+
+// c11Search: the breadth-first search over one universe; returns states, transitions, max depth,
+// number of probes, distinct probe signatures.
+func c11Search(run *h.Run, u c11Universe) (int, int, int, int, int) {
 	probes := c11Probes(u)
 	ops := c11Ops(u)
 	type node struct {
@@ -552,6 +629,7 @@ func checkC11(run *h.Run) {
 			for _, is := range r.issues {
 				c := is.c
 				c.Tier = run.Tier
+				c.U = u.Name
 				hist, s := r.n.hist, r.n.s
 				run.Violate(is.class, is.finding, is.msg, c, func() bool {
 					again, _ := c11Eval(u, probes, hist, s)
@@ -572,16 +650,5 @@ func checkC11(run *h.Run) {
 		}
 		frontier = next
 	}
-	run.Cov["states"] = states
-	run.Cov["transitions"] = transitions
-	run.Cov["traces_validated_against_impl"] = transitions
-	run.Cov["evaluations"] = transitions * len(probes) * 2
-	run.Cov["distinct_nontrivial"] = states
-	run.Cov["max_depth"] = maxDepth
-	run.Cov["probes_per_state"] = len(probes)
-	run.Cov["distinct_probe_signatures"] = sigs.Len()
-	run.Cov["exhaustive"] = true
-	run.Cov["roots"] = u.Roots
-	run.Cov["rule"] = fmt.Sprintf("E2: breadth-first search over operation histories up to depth %d; alphabet Add/Remove of %d services whose root paths collide in every way the mux registration can, Route/RemoveRoute of a dynamic route on %d of them, Handle of %d plain patterns, and one further Handle of an already registered pattern (rejected by net/http with a panic which the caller recovers: it registers nothing) (Add only of unregistered roots - the property's precondition). Every history is replayed three times - with the probe set served between all operations, between none, and between all but the last two. A successor is computed by replaying the history on a fresh real container; the probe set is also served between the operations of a history (so that nothing memoised while serving survives a change); in every reached state all %d probes (each service's routes incl. removed ones, root URLs, handler patterns, unknown URL; GET/POST; ServeHTTP and Dispatch) must be answered exactly as by a container built directly from the state's abstract content. States are merged on abstract content (plus the observed probe signature when a state deviates from its fresh twin). Every state is non-trivial.", u.Depth, len(u.Roots), len(u.Dynamic), len(u.Patterns), len(probes))
-	run.Assume = []string{"merged states have the same futures w.r.t. the probe set and alphabet because the oracle has just shown them observationally equal to the fresh-built container"}
+	return states, transitions, maxDepth, len(probes), sigs.Len()
 }
